@@ -10,3 +10,21 @@ C("C07",
   "Trusted: the u128 reference (native % / double-and-add, Fermat inversion), rustc overflow checks; f62 raw images are injected through the unsafe bytes_as_elements within the documented [0,2M) range.",
   "lock-step reference-model monitor over boundary pairs and random operation programs (overflow-checks build, step-bound hook)",
   "DESIGN.md §5 C07")
+
+C("C08",
+  "Quadratic and cubic extension arithmetic (all operators, square/cube fast paths, mul_base, inv, conjugate, exp, embedding, byte round trip, slice reinterpretation) is compared with schoolbook polynomial arithmetic modulo the documented irreducible over the u128 reference field; every coefficient position takes every boundary base element (also as internal image) against every position/boundary of the other operand; algebraic laws of conjugation and inversion are asserted.",
+  "Trusted: reference schoolbook arithmetic and the documented irreducibles (f64: x^2-x+2, x^3-x-1; f62: x^2-x-1, x^3+2x+2; f128: x^2-x-1); Frobenius computed as x^p.",
+  "reference-model monitor on boundary-positioned and random operands + algebraic-law assertions",
+  "DESIGN.md §5 C08")
+
+C("C09",
+  "Outputs of evaluate_poly, serial_fft, evaluate_poly_with_offset, interpolate_poly(_with_offset), infer_degree, twiddles, permute_index and of the column-batched LDE builders (ColMatrix/RowMatrix/Segment, segment widths 8/4/1, 1..255 columns) are compared with direct evaluation at explicitly computed domain points, for sizes 2^1..2^12 (quick) / 2^14 (thorough), base and extension fields, in the serial build and in the concurrent build under 3 and 16 threads.",
+  "Trusted: direct evaluation with the library's own field operations (monitored by C07/C08). Above the all-points budget only boundary + sampled points are compared (plus exact inverse-transform identity).",
+  "differential monitor against direct polynomial evaluation; serial and concurrent builds",
+  "DESIGN.md §5 C09")
+
+C("C20",
+  "Each routine of winter_math::polynom and the batch utilities is executed on generated inputs (zero leading/trailing coefficients, b in {1,-1,random}, a in 1..8, repeated roots, zero x-coordinates, zero patterns for batch inversion, lengths around 128/1024/4096 and 0) and its defining identity is asserted with independently written schoolbook code; serial and concurrent builds; three base fields and five extension types.",
+  "Trusted: schoolbook reference routines that use the library's field operations (monitored by C07/C08).",
+  "identity-checking monitors over generated inputs (serial + concurrent builds)",
+  "DESIGN.md §5 C20")
